@@ -768,6 +768,18 @@ def step (d : D) (line : String) : IO D := do
       d ← fail d "SPEC" s!"compact returned {res}"
     let _ := n
     pure d
+  | "afterclose" :: rest =>
+    -- operations on a closed handle (C10): no success for writers, no panic, no trace in the directory
+    let put := (field rest "put").getD ""
+    let del := (field rest "del").getD ""
+    let mut d := d
+    if put == "ok" || del == "ok" then
+      d ← fail d "SPEC" s!"a write on a closed database succeeded (put={put} del={del})"
+    if rest.any (fun t => (t.splitOn "=").getD 1 "" |>.startsWith "panic") then
+      d ← fail d "SPEC" s!"an operation on a closed database panicked: {" ".intercalate rest}"
+    if (field rest "dirsame").getD "" != "1" || (fieldNat rest "handles").getD 0 != 0 then
+      d ← fail d "SPEC" s!"operations that failed on a closed database changed its directory or left files open: {" ".intercalate rest}"
+    pure d
   | "caborted" :: _ =>
     -- Close won the race with this compaction: it stops where it was (whatever it returns). The records it
     -- had copied are garbage in the source now without the source's statistics knowing (until a recovery)
